@@ -127,6 +127,8 @@ def generate(tier, seed):
         size = 40 if tier == "quick" else 60
         for lo, hi in chunks(0, 5 ** length, size):
             cases.append({"kind": "enum", "len": length, "lo": lo, "hi": hi, "P": P})
+    for k in range(12 if tier == "quick" else 300):
+        cases.append({"kind": "multi", "k": k, "n": 150})
     nrand = 4000 if tier == "quick" else 200000
     for k, (lo, hi) in enumerate(chunks(0, nrand, 250)):
         cases.append({"kind": "rand", "k": k, "n": hi - lo})
@@ -192,9 +194,79 @@ def run_case(case, ctx):
                 if p:
                     check_pair(res, g, p, m(p), nn.matches(p), nw.matches(p))
             res.sigs.add(short_hash(g))
+    elif kind == "multi":
+        run_multi(case, ctx, res)
     elif kind == "lint":
         run_lint(case, ctx, res)
     return res.out()
+
+
+SMALL_GLOBS = ["a", "b", "*.a", "a*", "*", "**", "a/*", "**/a", "a/**", "\\*", "ab", "a.b", "*/b", "a/b", "./a", "a/", "a//b", "a/./b", "a/../b",
+               "*/.", "/a", "b.", ".a", "**/*.a", "a\\\\b", "\\a"]
+QUERY_PATHS = None
+
+
+def query_paths():
+    global QUERY_PATHS
+    if QUERY_PATHS is None:
+        from pathlib import PurePosixPath
+
+        out = []
+        for n in range(1, 5):
+            for t in itertools.product(["a", "b", ".", "/", "*", "\\"], repeat=n):
+                p = "".join(t)
+                # spellings a root-relative file path can really have
+                if not p.startswith("/") and PurePosixPath(p).as_posix() == p and "." not in p.split("/") and ".." not in p.split("/"):
+                    out.append(p)
+        QUERY_PATHS = out + ["a/b/c.a", "x/y/a", "ab/ba", "a.a", "b.a/a", "a/b/a/b"]
+    return QUERY_PATHS
+
+
+def run_multi(case, ctx, res):
+    """Several globs in one annotation, and globs taken through the REUSE.toml text route (from_toml / from_dict):
+    an annotation applies exactly when one of its globs matches the whole path."""
+    import reuse.global_licensing as gl
+
+    rng = rng_for(ctx.seed, "c05multi", case["k"])
+    paths = query_paths()
+    for _ in range(case["n"]):
+        globs = rng.sample(SMALL_GLOBS, rng.randint(1, 4))
+        if rng.random() < 0.3:
+            globs.append(glob_of(rng.randrange(5 ** 3), 3))
+        toks = [glob_ref.tokenize(g) for g in globs]
+        if any(t is None for t in toks):
+            continue
+        nn = [glob_ref.Nfa(t, False) for t in toks]
+        nw = [glob_ref.Nfa(t, True) for t in toks]
+        route = rng.choice(["ctor", "toml", "toml"])
+        try:
+            if route == "ctor":
+                item = ctx.state["AI"](paths=list(globs))
+                match = item.matches
+            else:
+                text = "version = 1\n\n[[annotations]]\npath = " + json.dumps(globs if len(globs) > 1 or rng.random() < 0.5 else globs[0]) + \
+                       '\nSPDX-License-Identifier = "MIT"\n'
+                rt = gl.ReuseTOML.from_toml(text, "REUSE.toml")
+                match = lambda p, rt=rt: rt.find_annotations_item(p) is not None  # noqa: E731
+        except Exception as e:  # noqa
+            res.violation("crash-compiling-glob", f"globs {globs!r} via {route}: {type(e).__name__}: {e}")
+            continue
+        for p in paths:
+            got = bool(match(p))
+            nar = any(n.matches(p) for n in nn)
+            wid = any(n.matches(p) for n in nw)
+            res.n += 1
+            if nar and not got:
+                res.violation(f"multi-glob-missed:{route}", f"annotation with globs {globs!r} must apply to {p!r} (one of them matches) but does not ({route})",
+                              globs=globs, path=p)
+                break
+            if got and not wid:
+                res.violation(f"multi-glob-overmatch:{route}", f"annotation with globs {globs!r} applies to {p!r} although none of them matches the whole path ({route})",
+                              globs=globs, path=p)
+                break
+        res.sigs.add(short_hash("multi", route, *globs))
+        res.cell("route:" + route)
+        res.cell(f"globs-per-item:{len(globs)}")
 
 
 def run_lint(case, ctx, res):
